@@ -234,6 +234,9 @@ class BlockMeanFilter(Contract):
             ncomp = rng.randint(1, 3)
             n = rng.randint(6, 30)
             arrs = [nrng.uniform(-5, 5, n) for _ in range(2 + 2 * ncomp)]
+            if rng.random() < 0.4:  # gridded (2-D) inputs - the bounded stage also evaluates them in other memory layouts
+                sh = (rng.randint(2, 4), rng.randint(3, 6))
+                arrs = [nrng.uniform(-5, 5, sh) for _ in range(2 + 2 * ncomp)]
             data = tuple(arrs[2 : 2 + ncomp])
             weighted = rng.random() < 0.6
             w = tuple(np.abs(x) + 0.1 for x in arrs[2 + ncomp :]) if weighted else None
